@@ -170,6 +170,23 @@ Theorem C12_wire_framing : forall semver marshal cfg m method declared framing_o
 Proof. exact wire_expected. Qed.
 Print Assumptions C12_wire_framing.
 
+(* Uploads in flight together (concurrent requests take effect in some
+   order): for a batch of valid uploads of pairwise different objects - e.g.
+   the first uploads of a new week arriving together - EVERY order gives: all
+   answered 2xx, each object reads back as its marshalled report, every other
+   object reads as before.  (Quantified over the list, hence over all its
+   permutations; nothing about the week directory existing beforehand.) *)
+Theorem C12_batch_any_order : forall semver marshal cfg qs m,
+  upload_store m -> Forall (batch_request semver cfg) qs -> NoDup (map q_path qs) ->
+  Forall (fun st => st = S2xx) (fst (serve semver marshal cfg m qs)) /\
+  upload_store (snd (serve semver marshal cfg m qs)) /\
+  (forall q r, In q qs -> q_decoded q = Some r ->
+     read (snd (serve semver marshal cfg m qs)) (components (object_name r)) = ROk (object_content marshal r)) /\
+  (forall n c, (forall q, In q qs -> q_path q <> components n) ->
+     (read (snd (serve semver marshal cfg m qs)) (components n) = ROk c <-> read m (components n) = ROk c)).
+Proof. exact batch_any_order. Qed.
+Print Assumptions C12_batch_any_order.
+
 (* all request sequences on a bucket that starts as an upload store *)
 Theorem C12_all_request_sequences : forall semver marshal cfg qs m,
   upload_store m -> Forall good_request qs ->
